@@ -808,9 +808,18 @@ def e_sqrt(a):
             return Fraction(math.sqrt(float(a)))
     t, n, i = rparts(a)
     eng = E()
-    y = z3.Real("sqrt!%d" % _fresh())
+    # one square-root symbol per argument term and path: equal arguments give the identical term
+    cache = eng.__dict__.setdefault("_sqrt_cache", {})
+    key = (z3.simplify(t).get_id(), eng.paths + eng.aborted)
+    hit = cache.get(key)
+    if hit is not None and z3.eq(hit[0], z3.simplify(t)):
+        y = hit[1]
+    else:
+        y = z3.Real("sqrt!%d" % _fresh())
+        cache[key] = (z3.simplify(t), y)
     neg = f_and(f_not(i), t < 0) if i is not False else (t < 0)
-    eng.assume(y >= 0, z3.Implies(z3.Not(bt(f_or(neg, n, i))), y * y == t))
+    eng.assume(y >= 0)
+    eng.lemmas.append(z3.Implies(z3.Not(bt(f_or(neg, n, i))), y * y == t))
     # sqrt(-inf) = nan, sqrt(+inf) = inf
     nan = f_or(n, neg, f_and(i, t < 0))
     return mkreal(z3.If(bt(i), RV(1), y), nan, f_and(i, f_not(nan)))
